@@ -540,30 +540,42 @@ static std::string judge(const Ref& R_, const std::vector<double>& x, const std:
    }
    return "";
 }
-// agreement of a multi-rhs result with the single solve, measured in the scale of the system:
-// right: |dx_j| colMax_j <= 1e-9 (|b|_inf + max_k colMax_k |x_k|); left: the same with row maxima
+// agreement of a multi-rhs result with the single solve. The two come from different code paths (dense / sparse
+// elimination orders), so on an ill-conditioned matrix two correct answers differ by cond(M) x rounding; "the same vector"
+// therefore means: the DIFFERENCE is explained by rounding, i.e. M (x - ref) is at rounding level by the same yardstick
+// the residual check uses (condition-free), twice the residual tolerance because two roundings are involved.
+// (a fixed 1e-9 component-wise tolerance raised alarms at 1.5e-9 on 50x50 matrices of the thorough tier.)
 static std::string agree(const Ref& R_, const std::vector<double>& x, const std::vector<double>& ref, const std::vector<Q>& b,
                          bool left)
 {
    int n = R_.n;
-   const std::vector<Q>& sc = left ? R_.rowMax : R_.colMax;
-   Q big = 0;
+   std::vector<Q> dq(n);
+   Q xinf = 0, binf = 0;
    for(int j = 0; j < n; j++)
    {
       if(!std::isfinite(x[j]) || !std::isfinite(ref[j])) return "result contains a non-finite number";
-      Q a = sc[j] * qabs(Q(ref[j]));
-      if(a > big) big = a;
-      if(qabs(b[j]) > big) big = qabs(b[j]);
+      dq[j] = Q(x[j]) - Q(ref[j]);
+      Q a = std::max(qabs(Q(x[j])), qabs(Q(ref[j])));
+      if(a > xinf) xinf = a;
+      if(qabs(b[j]) > binf) binf = qabs(b[j]);
    }
-   Q tol = Q(1e-9) * (big + 1);
-   for(int j = 0; j < n; j++)
+   const Q& nrm = left ? R_.norm1 : R_.normInf;
+   Q tol = 2 * (Q(1e-9) * (nrm * xinf + binf) + Q(16 * EPSZ) * nrm);
+   for(int i = 0; i < n; i++)
    {
-      Q d = qabs(Q(x[j]) - Q(ref[j])) * sc[j];
-      if(d > tol)
+      Q s = 0;
+      if(!left)
+      {
+         for(int j = 0; j < n; j++) if(R_.M[i][j] != 0 && dq[j] != 0) s += R_.M[i][j] * dq[j];
+      }
+      else
+      {
+         for(int j = 0; j < n; j++) if(R_.M[j][i] != 0 && dq[j] != 0) s += R_.M[j][i] * dq[j];
+      }
+      if(qabs(s) > tol)
       {
          char buf[200];
-         snprintf(buf, sizeof buf, "component %d differs from the single solve by %.3e (scaled), tolerance %.3e", j, d.get_d(),
-                  tol.get_d());
+         snprintf(buf, sizeof buf, "M (x - single) has component %d = %.3e, tolerance %.3e", i, qabs(s).get_d(), tol.get_d());
          return buf;
       }
    }
